@@ -53,6 +53,8 @@ def generate(rng, tier="quick"):
             alt["layout"] = "contexts"
         scn["alt_config"] = alt
         scn["alt_on"] = rng.subset([f for f in fes if f != "qcconfig"], 0.6, at_least=1)
+    if rng.chance(0.2):
+        scn["twin_on"] = rng.subset([f for f in fes if f != "qcconfig"], 0.5, at_least=1)
     for fe in fes:
         if fe == "qcconfig":
             continue
@@ -141,6 +143,8 @@ def execute(scn):
         exp = exps[r.which]
         if r.which == "alt":
             bump("alt_config_on_same_stream")
+        if r.name.endswith("+twin"):
+            bump("twin_generator_on_same_stream")
         if r.setup_error is not None:
             V.append(violation(PROP, "run", fe, r.setup_error[1], f"building stream/config raised: {r.setup_error[0]!r}"))
             continue
@@ -224,7 +228,7 @@ def execute(scn):
                         gotv = p[name]
                         if _vals(gotv) != _vals(wantv):
                             V.append(violation(PROP, "c", fe, f"probe-{name}", f"{label}: received {gotv} expected {wantv}"))
-        if not tainted and r.which == "main":
+        if not tainted and r.which == "main" and not r.name.endswith("+twin"):
             try:
                 from ioos_qc.results import collect_results
 
